@@ -27,8 +27,7 @@ def is_none_edge(lab, var):
       return pol == 'T'
     if isinstance(t.ops[0], (ast.IsNot, ast.NotEq)):
       return pol == 'F'
-  if isinstance(t, ast.Name) and t.id == var:
-    return pol == 'F'
+  # NOT `if not metric`: the empty string is a metric name the listeners accept, and it is falsy as well
   return False
 
 
